@@ -6,6 +6,7 @@
    numbers in [0,1). *)
 From Coq Require Import ZArith QArith Qcanon List Lia.
 From Verif Require Import Num NumFacts Engine EngineFacts Prng InitState InitStateFacts.
+From Verif Require Import Enums EnumFacts.
 Open Scope Qc_scope.
 
 (* redistribution, one species: whatever the uniforms, the correction returns after exactly |drawn total - floor(total)|
@@ -43,6 +44,20 @@ Print Assumptions C14_none.
 Theorem C14_reproducible : forall m ns nc sm seed blocks,
   init_state m ns nc sm (uniforms (mt_outputs seed blocks)) = init_state m ns nc sm (uniforms (mt_outputs seed blocks)).
 Proof. reflexivity. Qed.
+
+(* string enumerations (Model/Enums.v, re-read from /repo's Python and C++ source on every run by harness/translate_enums.py) *)
+(* every processing mode the script accepts is resolved by both initialisers to the documented action - none: keep, Poisson: draw,
+   redist: redistribute, auto: redistribute for a stochastic engine and keep for a deterministic one - and every branch transposes
+   the amounts to cell-major order *)
+Theorem C14_mode_dispatch : processing_dispatch_ok = true.
+Proof. exact processing_dispatch_agrees. Qed.
+Print Assumptions C14_mode_dispatch.
+
+(* the engines of engine_collection.py carry the options both initialisers dispatch, and `requires_molecules` on the Python side is
+   exactly `is_stochastic` on the C++ side (what `auto` is resolved against) *)
+Theorem C14_engine_options : engine_options_ok = true.
+Proof. exact engine_options_agree. Qed.
+Print Assumptions C14_engine_options.
 
 (* non-vacuity: amounts [0.2; 0; 0.3] (total below one molecule) with Poisson counts [0; 0; 1]: the surplus molecule, which is
    not in the first non-empty cell, is removed by one draw *)
